@@ -55,3 +55,25 @@ Proof.
   exists [cA], leak_before, (body_of (modcls [1; 0] [])), leak_D. repeat split.
   intro H. vm_compute in H. discriminate H.
 Qed.
+
+(* ---------- command component (CmdModel.v) *)
+Require Import FV.C09.CmdModel.
+
+(* class A(Module): calc = Command(StructOf(a=.., b=..))(f) with f(self, a, b);
+   class B(A): def calc(self, a, b=1) -- a plain method: B gets a clone whose argument copy has optional = [b];
+   class C(B): pass -- the re-merge at the definition of C puts the argument object of A back into the Command of B *)
+Definition st_ab : cdt := mkcdt 2 None None [(1%Z, (None, None)); (2%Z, (None, None))] [1%Z; 2%Z].
+Definition xA : xop :=
+  XDefine {| xd_module := true; xd_mro := [0];
+             xd_dict := [(2, XECmd {| x_desc := Some 1%Z; x_sig := Some (Some st_ab, None); x_doc := None; x_defaults := [] |})] |}.
+Definition xB : xop := XDefine {| xd_module := true; xd_mro := [1; 0]; xd_dict := [(2, XEFunc None [2%Z])] |}.
+Definition xC : xcdef := {| xd_module := true; xd_mro := [2; 1; 0]; xd_dict := [] |}.
+
+Theorem C09_refuted_method_override_reset_by_subclass :
+  exists ops d i, let s := xrun ops in
+    i < length (xclasses s) /\
+    xdescribe_class (xdefine s d) (nth i (xclasses s) xcls0) <> xdescribe_class s (nth i (xclasses s) xcls0).
+Proof.
+  exists [xA; xB], xC, 1. split; [vm_compute; auto|].
+  intro H. vm_compute in H. discriminate H.
+Qed.
